@@ -79,6 +79,9 @@ def gen_text(rng: random.Random, max_len: int, unicode: bool, nul: bool, hostile
     s = rand_text(rng, max_len, ascii_only=not unicode, hostile=hostile)
     if not nul:
         s = s.replace('\x00', '0')
+    elif rng.random() < 0.4:
+        i = rng.randint(0, len(s))
+        s = s[:i] + '\x00' + s[i:]
     if not unicode:
         s = ''.join(c if ord(c) < 128 else '?' for c in s)
     return s
@@ -188,6 +191,14 @@ def _add_ref(rng: random.Random, elem: Dict[str, Any], ref: Any, ctx: Dict[str, 
         elem['attrs'].append([gen_attr_name(rng, ctx, used), 'ELEMENT', False, ref])
 
 
+def _gen_uuid(rng: random.Random) -> str:
+    """Mostly version-4 UUIDs, sometimes any 128 bits (never all zero: that is the NULL element)."""
+    bits = rng.getrandbits(128) or 1
+    if rng.random() < 0.8:
+        return uuid.UUID(int=bits, version=4).hex
+    return uuid.UUID(int=bits).hex
+
+
 def gen_graph(rng: random.Random, big: bool = False) -> Dict[str, Any]:
     ctx = {
         'unicode': rng.random() < 0.5,
@@ -204,7 +215,7 @@ def gen_graph(rng: random.Random, big: bool = False) -> Dict[str, Any]:
         elems.append({
             'type': gen_type_name(rng, ctx),
             'name': gen_text(rng, 10, ctx['unicode'], ctx['nul'], ctx['hostile']),
-            'uuid': uuid.UUID(int=rng.getrandbits(128), version=4).hex,
+            'uuid': _gen_uuid(rng),
             'attrs': [],
         })
         used.append(set())
